@@ -54,6 +54,7 @@ type Interp struct {
 	curFn          *ssa.Function
 	lastPanicStack string
 	inErrorf       int
+	opaqueCount    int
 
 	// accumulated over all paths of this worker
 	stats     *Stats
@@ -78,6 +79,7 @@ type Finding struct {
 	Decisions []int
 	Model     map[string]interface{}
 	Stack     string
+	Observed  []string
 }
 
 type Stats struct {
@@ -607,7 +609,7 @@ func (in *Interp) check(v Value, msg, knownID string, fr *frame) {
 		if r == smt.Unsat {
 			panic(abortPath{"path infeasible at failed assertion"})
 		}
-		in.findings = append(in.findings, Finding{Kind: "assert", Msg: msg, KnownID: knownID, Decisions: append([]int{}, in.taken...), Model: in.buildModel(m), Stack: stackOf(fr)})
+		in.findings = append(in.findings, Finding{Kind: "assert", Msg: msg, KnownID: knownID, Decisions: append([]int{}, in.taken...), Model: in.buildModel(m), Stack: stackOf(fr), Observed: append([]string{}, in.observed...)})
 		panic(abortPath{"assertion failed"})
 	case SymBool:
 		in.symAssert++
@@ -626,7 +628,7 @@ func (in *Interp) check(v Value, msg, knownID string, fr *frame) {
 		case err != nil || r == smt.Unknown:
 			in.inconclusive(fmt.Sprintf("obligation %q: %v %v", msg, r, err))
 		case r == smt.Sat:
-			in.findings = append(in.findings, Finding{Kind: "assert", Msg: msg, KnownID: knownID, Decisions: append([]int{}, in.taken...), Model: in.buildModel(m), Stack: stackOf(fr)})
+			in.findings = append(in.findings, Finding{Kind: "assert", Msg: msg, KnownID: knownID, Decisions: append([]int{}, in.taken...), Model: in.buildModel(m), Stack: stackOf(fr), Observed: append([]string{}, in.observed...)})
 		default:
 			in.stats.mu.Lock()
 			in.stats.Discharged++
@@ -716,6 +718,7 @@ func (in *Interp) RunPath(entry *ssa.Function, prefix []int) (res PathResult) {
 	in.frozenMap = nil
 	in.lastPanicStack = ""
 	in.inErrorf = 0
+	in.opaqueCount = 0
 	if in.ctx.NumTerms() > 400000 {
 		in.ctx = smt.NewCtx()
 	}
